@@ -1,4 +1,5 @@
 """C19 — gradient_descent returns a consistent, finite, guarded trajectory."""
+import copy
 import math
 import random
 
@@ -18,19 +19,28 @@ def one_case(rnd):
     _, S, MM, D = _hm()
     from hmclab.Optimizers import gradient_descent
 
-    kind = rnd.choice(["normaldiag", "normaldiag", "himmelblau", "stdnormal", "laplace", "uniform"])
+    kind = rnd.choice(["normaldiag", "normaldiag", "himmelblau", "stdnormal", "laplace", "uniform", "bayes", "bayes"])
     d = {"himmelblau": 2, "stdnormal": 1}.get(kind, rnd.choice([1, 2, 3, 5]))
     boxed = kind == "uniform" or rnd.random() < 0.4
-    dist, tstr, bstr, tdesc, lb, ub = make_target(rnd, kind, d, boxed)
+    if kind == "bayes":
+        # a posterior: uniform prior x Gaussian likelihood, in either order
+        prior, _, _, pdesc, lb, ub = make_target(rnd, "uniform", d, True)
+        like, _, _, ldesc, _, _ = make_target(rnd, "normaldiag", d, False)
+        order = rnd.choice(["prior-first", "likelihood-first"])
+        dist = D.BayesRule([prior, like] if order == "prior-first" else [like, prior])
+        tdesc = {"kind": "bayes", "order": order, "prior": pdesc, "likelihood": ldesc}
+    else:
+        dist, tstr, bstr, tdesc, lb, ub = make_target(rnd, kind, d, boxed)
     nasty = rnd.random() < 0.25
     if nasty:
         NastyFn.install(dist, rnd, 0.2)
+    pristine = copy.deepcopy(dist)       # never evaluated by the optimiser: the reference for what the target's misfit and gradient are
     calls = CallLog()
     calls.wrap(dist, "misfit")
     calls.wrap(dist, "gradient")
     eps = rnd.choice([0.1, 0.01, 0.5, 1.0, 2.5, 10.0, 1e3, 1e200, rnd.uniform(0.001, 3)])
     iters = rnd.choice([0, 1, 2, 5, 12, 30])
-    reg = rnd.choice([None, None, 1.0, 0.1, 10.0])
+    reg = rnd.choice([None, None, 1.0, 0.1, 10.0, 0.0, 0, 1e-300])
     strict = rnd.random() < 0.5
     m0 = inside_start(rnd, d, lb, ub) if rnd.random() < 0.9 else None
     stim = {"target": tdesc, "nasty": nasty, "epsilon": eps, "iterations": iters, "regularization": reg, "strictly_monotonic": strict,
@@ -38,7 +48,7 @@ def one_case(rnd):
     with quiet(), np.errstate(all="ignore"):
         m, x, ms, xs = gradient_descent(dist, initial_model=None if m0 is None else m0.copy(), epsilon=eps, iterations=iters,
                                         regularization=reg, strictly_monotonic=strict, disable_progressbar=True)
-    return stim, dist, calls.calls, (m, x, ms, xs), (np.zeros((d, 1)) if m0 is None else m0), nasty
+    return stim, pristine, calls.calls, (m, x, ms, xs), (np.zeros((d, 1)) if m0 is None else m0), nasty
 
 
 def run(tier, seed):
@@ -91,6 +101,21 @@ def run(tier, seed):
             if not np.allclose(expect, ms[k + 1].reshape(-1, 1), rtol=1e-12, atol=0, equal_nan=True):
                 problems.append(f"history model {k + 1} is not model {k} - epsilon * gradient")
                 break
+        # ... where "the target's misfit / gradient" is what a copy of the target that the optimiser never touched returns
+        if not problems:
+            for k in range(len(xs)):
+                mk = np.ascontiguousarray(ms[k], dtype=float).reshape(-1, 1)
+                with np.errstate(all="ignore"), quiet():
+                    fresh = copy.deepcopy(dist)
+                    xv = float(fresh.misfit(mk.copy()))
+                    gv = np.asarray(copy.deepcopy(dist).gradient(mk.copy()), dtype=float).reshape(-1, 1) if k < len(xs) - 1 else None
+                if not (common.bits_equal(xv, float(xs[k])) or common.close(xv, float(xs[k]), 1e-13, 0) or (xv != xv and xs[k] != xs[k])):
+                    problems.append(f"history misfit {k} ({xs[k]!r}) is not the misfit an untouched copy of the target gives at that model ({xv!r})")
+                    break
+                g_used = glook.get(mk.tobytes())
+                if gv is not None and g_used is not None and not np.allclose(np.asarray(g_used, dtype=float).reshape(-1, 1), gv, rtol=1e-13, atol=0, equal_nan=True):
+                    problems.append(f"the gradient used for step {k} is not the gradient an untouched copy of the target gives at model {k}")
+                    break
         if any((v != v or math.isinf(v)) for v in xs[1:]):
             problems.append("a step with NaN/infinite misfit was returned")
         if stim["strictly_monotonic"] and any(xs[k + 1] > xs[k] for k in range(len(xs) - 1)):
